@@ -160,7 +160,8 @@ def dft_19_20(node: ir.Node, op):
     dft_length = node.inputs[1] if len(node.inputs) > 1 else None
     inverse = _get_int_attribute(node, "inverse", 0)
     onesided = _get_int_attribute(node, "onesided", 0)
-    axis = _get_int_attribute(node, "axis", None)
+    # The default axis is 1 in opset 19 and -2 in opset 20: always make it explicit.
+    axis = _get_int_attribute(node, "axis", 1)
     if axis is not None:
         axis_value = op.Constant(value_int=axis)
         return op.DFT(input, dft_length, axis_value, inverse=inverse, onesided=onesided)
